@@ -78,6 +78,18 @@ def mkAudit (t : Thread) (ip port : Nat) : AuditVal :=
 /-- `cgroup/connect4`: returns the new state and the (possibly rewritten) address -/
 def connect4 (s : State) (t : Thread) (ip port proto : Nat) : State × Nat × Nat :=
   match lookup s.policy (destKey ip port proto) with
+  | none =>
+    -- not a destination to redirect: whatever an earlier connect of this thread left in the hand-over map (one that failed
+    -- between the two hooks) is dropped, so that `tcp_connect` does not record this connect with it
+    ({ s with localMap := delete s.localMap t.pidTgid }, ip, port)
+  | some pol =>
+    if s.skip.contains t.pid then (s, ip, port)
+    else
+      ({ s with localMap := update s.localMap t.pidTgid (mkLocal t ip port proto) }, pol.getD 0 0, pol.getD 4 0)
+
+/-- `cgroup/connect4` as it was before the fix of F12: an unprotected destination left the hand-over map alone -/
+def connect4Old (s : State) (t : Thread) (ip port proto : Nat) : State × Nat × Nat :=
+  match lookup s.policy (destKey ip port proto) with
   | none => (s, ip, port)
   | some pol =>
     if s.skip.contains t.pid then (s, ip, port)
@@ -97,6 +109,76 @@ def tcpConnect (s : State) (t : Thread) (family daddr dport lport : Nat) : State
       | some _ =>
         { s with audit := update s.audit (ipprotoTcp, lport) (mkAudit t daddr dport) }
       | none => s
+
+
+/-! ### the maps with their declared capacities
+
+`local_map` and `audit_map` are declared `BPF_MAP_TYPE_LRU_HASH` with `max_entries` 200. The lists above are kept most recently
+written first (`update` puts the pair in front), so the entry an LRU map evicts when a new key arrives at a full map is the last
+one. A plain `BPF_MAP_TYPE_HASH` refuses the new key instead (`-E2BIG`), which the program logs and ignores. -/
+
+inductive MapKind where
+  | hash | lru
+  deriving DecidableEq, Repr
+
+def updateB {κ β} [DecidableEq κ] (kind : MapKind) (cap : Nat) (m : List (κ × β)) (k : κ) (v : β) : List (κ × β) :=
+  if (lookup m k).isSome then update m k v
+  else if m.length < cap then update m k v
+  else match kind with
+    | .lru => (k, v) :: m.dropLast
+    | .hash => m
+
+/-- the kind and capacity of the two bounded maps -/
+structure Caps where
+  localKind : MapKind
+  localCap : Nat
+  auditKind : MapKind
+  auditCap : Nat
+  deriving Repr
+
+/-- `cgroup/connect4` over bounded maps -/
+def connect4B (c : Caps) (s : State) (t : Thread) (ip port proto : Nat) : State × Nat × Nat :=
+  match lookup s.policy (destKey ip port proto) with
+  | none => ({ s with localMap := delete s.localMap t.pidTgid }, ip, port)
+  | some pol =>
+    if s.skip.contains t.pid then (s, ip, port)
+    else
+      ({ s with localMap := updateB c.localKind c.localCap s.localMap t.pidTgid (mkLocal t ip port proto) },
+       pol.getD 0 0, pol.getD 4 0)
+
+/-- `kprobe/tcp_connect` over bounded maps -/
+def tcpConnectB (c : Caps) (s : State) (t : Thread) (family daddr dport lport : Nat) : State :=
+  if family ≠ afInet then s
+  else if s.skip.contains t.pid then s
+  else match lookup s.localMap t.pidTgid with
+    | some e =>
+      { s with audit := updateB c.auditKind c.auditCap s.audit (e.protocol, lport) (auditOfLocal e),
+               localMap := delete s.localMap t.pidTgid }
+    | none =>
+      match lookup s.policy (destKey daddr dport ipprotoTcp) with
+      | some _ =>
+        { s with audit := updateB c.auditKind c.auditCap s.audit (ipprotoTcp, lport) (mkAudit t daddr dport) }
+      | none => s
+
+/-- what other threads do between the two hooks of the thread under consideration -/
+inductive Ev where
+  | c4 (t : Thread) (ip port proto : Nat)
+  | tc (t : Thread) (family daddr dport lport : Nat)
+  deriving Repr
+
+def Ev.thread : Ev → Thread
+  | .c4 t _ _ _ => t
+  | .tc t _ _ _ _ => t
+
+def Ev.isC4 : Ev → Bool
+  | .c4 .. => true
+  | .tc .. => false
+
+def stepB (c : Caps) (s : State) : Ev → State
+  | .c4 t ip port proto => (connect4B c s t ip port proto).1
+  | .tc t f a p l => tcpConnectB c s t f a p l
+
+def runB (c : Caps) (s : State) (evs : List Ev) : State := evs.foldl (stepB c) s
 
 /-! ### user-space encoders -/
 
